@@ -3,7 +3,8 @@
     A bin table is given by its chromosome blocks; [ValidBlocks] (C20) says block i is a non-empty
     tiling of chromosome i from 0.  [region_to_extent] takes the fixed-width (arithmetic) path when
     get_binsize reports a size and the searchsorted path otherwise. *)
-From Cooler Require Import Model.Extent Proofs.BinsProofs Proofs.ExtentProofs.
+From Cooler Require Import Model.Extent Model.Fetch Proofs.BinsProofs Proofs.ExtentProofs Proofs.FetchProofs.
+From Cooler Require Model.Index Proofs.IndexProofs.
 
 (** non-empty range: bin k is selected IFF it is a bin of the chromosome that overlaps [s,e);
     the run is non-empty and lies inside the chromosome's span (never another chromosome).
@@ -114,6 +115,67 @@ Theorem C04_chrom_offset_counts : forall blocks c,
 Proof. exact chrom_offset_counts. Qed.
 Print Assumptions C04_chrom_offset_counts.
 
+(** ---- integration with C02 (schema of a stored collection) and C03 (range-query engine) ---- *)
+
+(** a valid non-empty region resolves; its extent is exactly the ascending list of ids of the bins of that
+    chromosome overlapping it *)
+Theorem C04_extent_is_overlap_ids : forall blocks i blk s e,
+  ValidBlocks blocks -> nth_error blocks i = Some blk -> 0 <= s < e -> e <= chrom_len blk ->
+  exists lo hi, extent blocks i (Some s) (Some e) = Some (lo, hi) /\
+    0 <= lo /\ lo < hi /\ hi <= zlen (table blocks) /\
+    (forall k, lo <= k < hi <-> bin_overlaps blocks i s e k = true) /\
+    zrange lo (Z.to_nat (hi - lo)) = overlap_ids blocks i s e.
+Proof. exact extent_is_overlap_ids. Qed.
+Print Assumptions C04_extent_is_overlap_ids.
+
+(** a two-region fetch IS the index-slice query of the engine (C03) on the two extents *)
+Theorem C04_fetch2_eq_slice : forall blocks epx off cs fill form r1 r2 i0 i1 j0 j1,
+  extent blocks (fst (fst r1)) (snd (fst r1)) (snd r1) = Some (i0, i1) ->
+  extent blocks (fst (fst r2)) (snd (fst r2)) (snd r2) = Some (j0, j1) ->
+  matrix_fetch_records blocks epx off cs fill form r1 r2 = matrix_records epx off cs fill form (i0, i1, j0, j1).
+Proof. exact fetch2_eq_slice. Qed.
+Print Assumptions C04_fetch2_eq_slice.
+
+(** on every schema-valid (C02) symmetric-upper collection, for every chunk size, the dense two-region fetch is the
+    symmetric matrix over exactly (bins overlapping region 1) x (bins overlapping region 2) *)
+Theorem C04_matrix_fetch_symm : forall (c : Index.cooler) blocks,
+  IndexProofs.ValidCSR c -> ValidBlocks blocks -> zlen (table blocks) = Index.nbins c ->
+  forall cs i1 blk1 s1 e1 i2 blk2 s2 e2,
+  Index.symmetric_upper c = true -> 1 <= cs ->
+  nth_error blocks i1 = Some blk1 -> 0 <= s1 < e1 -> e1 <= chrom_len blk1 ->
+  nth_error blocks i2 = Some blk2 -> 0 <= s2 < e2 -> e2 <= chrom_len blk2 ->
+  matrix_fetch_dense blocks (epx_of (Index.pixels_of c)) (Index.bin1_offset c) cs true
+                     (i1, Some s1, Some e1) (i2, Some s2, Some e2) =
+  Some (map (fun i => map (fun j => symm (Index.pixels_of c) i j) (overlap_ids blocks i2 s2 e2))
+            (overlap_ids blocks i1 s1 e1)).
+Proof. exact matrix_fetch_symm. Qed.
+Print Assumptions C04_matrix_fetch_symm.
+
+(** ... and the pixel-frame form returns exactly the stored records with bin1 overlapping region 1 and bin2
+    overlapping region 2 *)
+Theorem C04_matrix_fetch_pixels : forall (c : Index.cooler) blocks,
+  IndexProofs.ValidCSR c -> ValidBlocks blocks -> zlen (table blocks) = Index.nbins c ->
+  forall cs i1 blk1 s1 e1 i2 blk2 s2 e2,
+  1 <= cs ->
+  nth_error blocks i1 = Some blk1 -> 0 <= s1 < e1 -> e1 <= chrom_len blk1 ->
+  nth_error blocks i2 = Some blk2 -> 0 <= s2 < e2 -> e2 <= chrom_len blk2 ->
+  matrix_fetch_records blocks (epx_of (Index.pixels_of c)) (Index.bin1_offset c) cs true AsPixels
+                       (i1, Some s1, Some e1) (i2, Some s2, Some e2) =
+  Some (filter (fun r => bin_overlaps blocks i1 s1 e1 (row (snd r)) && bin_overlaps blocks i2 s2 e2 (col (snd r)))
+               (epx_of (Index.pixels_of c))).
+Proof. exact matrix_fetch_pixels. Qed.
+Print Assumptions C04_matrix_fetch_pixels.
+
+(** pixels().fetch(region) on a schema-valid collection (stored bin1_offset index): exactly the stored records
+    whose bin1 overlaps the region *)
+Theorem C04_pixels_fetch_stored : forall (c : Index.cooler) blocks i blk s e,
+  IndexProofs.ValidCSR c -> ValidBlocks blocks -> zlen (table blocks) = Index.nbins c ->
+  nth_error blocks i = Some blk -> 0 <= s < e -> e <= chrom_len blk ->
+  pixels_fetch_stored blocks (Index.pixels_of c) (Index.bin1_offset c) (i, Some s, Some e) =
+  Some (filter (fun p => bin_overlaps blocks i s e (row p)) (Index.pixels_of c)).
+Proof. exact pixels_fetch_stored_spec. Qed.
+Print Assumptions C04_pixels_fetch_stored.
+
 (** non-vacuity *)
 Example ex_C04_variable :
   let blocks := [[(0,0,3);(0,3,6);(0,6,8)]; [(1,0,4);(1,4,8)]; [(2,0,5)]] in
@@ -126,3 +188,13 @@ Example ex_C04_fixed :
   valid_blocks_b blocks = true /\ get_binsize (table blocks) = Some 10 /\
   region_to_extent blocks 0 10 21 = (1, 3) /\ region_to_extent blocks 1 0 7 = (3, 4).
 Proof. vm_compute. repeat split; reflexivity. Qed.
+Example ex_C04_stored_fetch :
+  let blocks := [[(0,0,3);(0,3,6);(0,6,8)]; [(1,0,4);(1,4,8)]] in
+  let px : list pixel := [((0,0),1); ((0,2),2); ((1,3),3); ((3,4),4)] in
+  exists c, Index.create_model 2 (map bchrom (table blocks)) px true = Some c /\
+    Index.valid_csr_b c = true /\ valid_blocks_b blocks = true /\ zlen (table blocks) = Index.nbins c /\
+    overlap_ids blocks 0 2 7 = [0; 1; 2] /\ overlap_ids blocks 1 0 5 = [3; 4] /\
+    matrix_fetch_dense blocks (epx_of (Index.pixels_of c)) (Index.bin1_offset c) 2 true (0%nat, Some 2, Some 7) (1%nat, Some 0, Some 5)
+      = Some [[0; 0]; [3; 0]; [0; 0]] /\
+    pixels_fetch_stored blocks (Index.pixels_of c) (Index.bin1_offset c) (0%nat, Some 3, Some 6) = Some [((1,3),3)].
+Proof. eexists. vm_compute. repeat split; reflexivity. Qed.
